@@ -59,8 +59,13 @@ fn check_receiver_clone_and_last_drop(n: usize) {
     drop(c);
     assert!(r.inner.receivers.load(Ordering::Relaxed) == n && !closed(&s), "[C11] the channel stays open while a handle of each side is alive");
     let _ = s.try_send(7);
+    // the channel may already have been closed explicitly (its buffered values stay receivable until the last receiver goes)
+    let pre_closed: bool = kani::any();
+    if pre_closed {
+        let _ = s.close();
+    }
     drop(r);
-    assert!(closed(&s) == (n == 1), "[C11] the channel closes implicitly exactly when the LAST receiver handle is dropped");
+    assert!(closed(&s) == (n == 1 || pre_closed), "[C11] the channel closes implicitly exactly when the LAST receiver handle is dropped");
     let left = s.inner.channel.inner.lock().buffer.len();
     assert!(left == (if n == 1 { 0 } else { 1 }), "[C11] dropping the last receiver discards the buffered values immediately (and only then)");
     core::mem::forget(s);
